@@ -19,6 +19,12 @@ Theorem C19_ptree_match_is_prefix_exists : forall strs b,
 Proof. exact ptree_match_is_prefix_exists. Qed.
 Print Assumptions C19_ptree_match_is_prefix_exists.
 
+(* exact mode (patriciaTree.match, unused by the listener): membership *)
+Theorem C19_ptree_match_exact_is_member : forall strs b,
+  strs <> [] -> pt_match (new_tree strs) b false = any_equal strs b.
+Proof. exact ptree_match_exact_is_member. Qed.
+Print Assumptions C19_ptree_match_exact_is_member.
+
 (* the sniffing Conn: for every read script of the raw connection (any
    segmentation, errors, deadlines), any number of sniffing sessions with
    matcher reads of any sizes, and service reads of any sizes: no panic, every
